@@ -57,7 +57,7 @@ var props = map[string]*PropSpec{
 	"C01": {
 		ID: "C01", Cone: []ConeItem{edVerify, geAll, modmAll, curveAll}, Quick: twoLayouts, Thorough: allSix, Technique: techGovc,
 		Trusted: append([]string{
-			"DoubleScalarmultVartime: the group-level result lc2(P, s1, s2) is an assumed postcondition (sliding-window digit property and Horner invariant not discharged); memory safety, magnitudes and frame of its body are proved",
+			"DoubleScalarmultVartime: its result [s1]P + [s2]B is PROVED from its body (Horner loop invariant over the ghost recursion hv(i-1) = 2 hv(i) + digit_i, table lemmas by case analysis, ground-validated sliding table) relative to two named assumptions: the digit property of ContractSlidingWindow's second phase (digits odd or zero, bounded, weighted sum = scalar) and Horner's rule (the recursion sums to the weighted digit sum)",
 			"M3: for p = 5 (mod 8) the candidate root decides squareness (reading of `decodable`)",
 		}, bridgeTrusted...),
 		Assumptions: []string{"non-nil *Options", "the predicate is stated with [8](([h](-A) + [S]B) - R) = O, the form the code evaluates; its equality with [8]([S]B - [h]A - R) is the abelian group law (M2)"},
@@ -92,7 +92,7 @@ var props = map[string]*PropSpec{
 			"observational identity is a corollary: each configuration is proved equal to the same mathematical specification, not compared pairwise",
 			"under the default (amd64) configuration the assembly table lookup has an assumed functional contract; the other configurations verify the Go lookup",
 		}, bridgeTrusted...),
-		Assumptions: []string{"VerifyBatch verdicts are not covered (batch_verify.go is not under contract); limb128bits (the only limb-width dependent constant there) is therefore not examined", "results that the contracts leave to assumed postconditions (group result of DoubleScalarmultVartime, rejection direction of decoding) are equal across configurations only under those same assumptions"},
+		Assumptions: []string{"VerifyBatch verdicts are not part of this check (they are C06's; limb128bits, the only limb-width dependent constant there, lives in the unverified multi-scalar routine)", "results that the contracts leave to assumed postconditions (digit property of the sliding-window recoding, rejection direction of decoding, the assembly selector's functional contract) are equal across configurations only under those same assumptions"},
 	},
 	"C09": {
 		ID: "C09", Cone: []ConeItem{{Pkg: ".", Funcs: []string{"isSmallOrderVartime", "verify"}}, geAll, curveAll}, Quick: twoLayouts, Thorough: allSix, Technique: techGovc,
@@ -136,7 +136,7 @@ var props = map[string]*PropSpec{
 		ID: "C16", Cone: []ConeItem{geAll, {Pkg: "internal/modm", Funcs: []string{"ContractWindow4", "ContractSlidingWindow"}}, curveAll}, Quick: []string{"default", "force32bit", "noasm"}, Thorough: allSix, Technique: techGovc, Ground: true,
 		Trusted: append([]string{
 			"fixed-base: proved P3(r) == mulB(s) for every canonical s < 2^255 from the callees' contracts, the 256 ground-validated table facts and ground instances of GADD/GDBL/N0TON; the assembly lookup (amd64) has an assumed contract",
-			"double-base: the group-level result is an ASSUMED postcondition of DoubleScalarmultVartime (see C01); its memory safety, magnitude discipline and frame are proved",
+			"double-base: P3(r) == lc2(P, s1, s2) is proved from the body of DoubleScalarmultVartime (loop invariant in Horner form) relative to the ASSUMED digit property of ContractSlidingWindow's second phase and Horner's rule; memory safety, magnitudes and frame are proved",
 		}, bridgeTrusted...),
 	},
 	"C20": {
